@@ -14,12 +14,16 @@ pub struct AccessMonitor {
     /// Contracts that exist in storage but are not inputs (for the non-triviality rule).
     pub deployed: BTreeSet<ContractId>,
     pub foreign_ops: BTreeSet<u8>,
+    /// Signatures listed as known findings: an access with such a signature is reported only
+    /// when the step has no other offending access (a known one must not mask a new one).
+    pub known: BTreeSet<String>,
 }
 
 impl Monitor for AccessMonitor {
     fn after(&mut self, vm: &mut Vm, info: &StepInfo, stats: &mut Stats) -> Option<Viol> {
         let opname = info.op.map(|o| format!("{o:?}")).unwrap_or_else(|| "?".into());
         // which contract id does the instruction address (for the reach probe)
+        let mut first_known: Option<Viol> = None;
         for a in &info.log {
             if !matches!(a.table, Table::RawCode | Table::State | Table::Assets) {
                 continue;
@@ -35,9 +39,9 @@ impl Monitor for AccessMonitor {
             }
             stats.inc_dyn(format!("probe.call_not_in_inputs.{opname}"));
             let sig = format!("non-input-access:{opname}:{:?}:{:?}", a.table, a.method);
-            return Some((
+            let v: Viol = (
                 "non-input-contract-access".into(),
-                sig,
+                sig.clone(),
                 format!(
                     "step {}: {opname} performed {:?}::{:?} on contract {} which is not among the transaction's contract inputs",
                     info.pre.step,
@@ -45,7 +49,15 @@ impl Monitor for AccessMonitor {
                     a.method,
                     hex::encode(c.as_ref())
                 ),
-            ));
+            );
+            if self.known.contains(&sig) {
+                first_known.get_or_insert(v);
+                continue;
+            }
+            return Some(v);
+        }
+        if first_known.is_some() {
+            return first_known;
         }
         // the contract whose context is active is always an input
         if !info.finished && !info.errored {
